@@ -7,7 +7,7 @@
  * the wrappers inject the scheduled outcome on the designated descriptor / call and pass everything else through.
  *
  * Transfer scripts (one step each):
- *     xfer <len> <mode> <wsched> <rsched> = {data=T,len=<len>,send=T} {open=0,rc=..,rcalls=..,retries=..,wc=..,wcalls=..}
+ *     xfer <len> <mode> <wsched> <rsched> = {rc=..,rcalls=..,retries=..,wc=..,wcalls=..} {data=T,len=<len>,open=0,send=T}
  *   sched = [[ok,n],[sh,n],[ei,0],[ea,0],[end,0]...]: outcome of the first calls on the client (write) / accepted (read)
  *   descriptor;  mode eof: the client is closed before the peer reads;  nbio: the peer reads non-blocking.
  * Lifecycle scripts: new/open/accept/send/recv/close/dup/del steps; state token {g=<ghost>,o=<observable>} where the ghost
@@ -197,8 +197,9 @@ static const char *do_xfer(const vh_step_t *st, vh_sb *ret, vh_sb *state) {
     census(cur_fd);
     for (i = 0; i < MAXFD; i++) if (cur_fd[i] && !base_fd[i]) nopen++;
     if (spin_detected) return "recv:read_loop_did_not_end";
-    sb_printf(ret, "{data=%c,len=%ld,send=%c}", same ? 'T' : 'F', glen, sr ? 'T' : 'F');
-    sb_printf(state, "{open=%d,rc=%ld,rcalls=%ld,retries=%ld,wc=%ld,wcalls=%ld}", nopen, rc, rcl, sl, wc, wcl);
+    /* state = what the property is about (bytes intact, send's verdict, no descriptor left); ret = calls consumed */
+    sb_printf(state, "{data=%c,len=%ld,open=%d,send=%c}", same ? 'T' : 'F', glen, nopen, sr ? 'T' : 'F');
+    sb_printf(ret, "{rc=%ld,rcalls=%ld,retries=%ld,wc=%ld,wcalls=%ld}", rc, rcl, sl, wc, wcl);
     return NULL;
 }
 
